@@ -116,6 +116,7 @@ theorem step_obs (s : St) (op : Op) :
   | lead m => right; simp only [step]; split <;> exact ⟨rfl, rfl⟩
   | expire m => right; exact ⟨rfl, rfl⟩
   | resign => right; exact ⟨rfl, rfl⟩
+  | extWin v => right; exact ⟨rfl, rfl⟩
   | dropKey => right; exact ⟨rfl, rfl⟩
   | update m now f =>
     right; simp only [step]
@@ -144,7 +145,7 @@ theorem step_obs (s : St) (op : Op) :
     right; simp only [step]
     split
     · exact ⟨rfl, rfl⟩
-    · have := syncFinish_obs s m s.stored now f; exact ⟨this.2, this.1⟩
+    · have := syncFinish_obs s m (optMax s.stored s.ext) now f; exact ⟨this.2, this.1⟩
   | gsync m now => right; simp only [step]; split <;> exact ⟨rfl, rfl⟩
   | finish m f =>
     right; simp only [step]
